@@ -136,6 +136,14 @@ Proof. intros [] Hn. constructor; cbn; try assumption; reflexivity. Qed.
 Lemma hrel_set_pax ha hr pa pr : hrel ha hr -> pax_rel pa pr -> hrel (set_pax ha pa) (set_pax hr pr).
 Proof. intros [] Hp. constructor; cbn; assumption. Qed.
 
+Lemma keep_size_rel ha hr : hrel ha hr -> pax_rel (keep_size ha) (keep_size hr).
+Proof.
+  intro H. unfold keep_size. rewrite (hr_size _ _ H).
+  rewrite (pax_get_rel K_usize _ _ (hr_pax _ _ H)) by discriminate.
+  destruct (0 <? h_size ha); [|exact (hr_pax _ _ H)].
+  destruct (pax_get K_usize (h_pax ha)); [exact (hr_pax _ _ H)|]. apply pax_set_rel_eq. exact (hr_pax _ _ H).
+Qed.
+
 Lemma hrel_patch_mode m ha hr : hrel ha hr -> hrel (patch_mode m ha) (patch_mode m hr).
 Proof. intros []. constructor; cbn; try assumption; reflexivity. Qed.
 Lemma hrel_patch_owner u g ha hr : hrel ha hr -> hrel (patch_owner u g ha) (patch_owner u g hr).
